@@ -21,6 +21,7 @@
 import BroodModel.Lemmas.RoundTrip
 import BroodModel.Props.C04
 import BroodModel.Props.C15
+import BroodModel.Lemmas.AllocAbs
 
 namespace Brood
 open Serde
@@ -108,6 +109,35 @@ what the real code did before the repair; `C06_clear_order_independent` is about
 example :
     freeAfter (twoTables.clearWith twoTables.archs) = some [0, 1] ∧
     freeAfter (twoTables.clearWith twoTables.archs.reverse) = some [1, 0] ∧ Inv twoTables := by
+  decide
+
+/-- **From then on it behaves identically: the same identifiers are issued, for ever.**  A world
+and its round-tripped copy that receive the same operations (any history; `clear` visiting each
+world's tables in whatever order they happen to be stored) are handed exactly the same
+identifiers.  What decides the identifiers is only the allocator abstraction (`Alloc.abs`:
+generation and in-use bit per slot, the free queue), which every operation transforms as a
+function of itself (`step_abs`), and which a round trip preserves. -/
+theorem C06_lockstep {w : World} (hi : Inv w) (hres : ResOk w) {k : Kinds} (hz : ZOk k w)
+    (hr : Bool) (e next : Nat) (opsa opsb : List Op) (hops : opsa.map Op.forget = opsb.map Op.forget) :
+    ∃ w', deserialize k hr w.n w.res.length e next (serialize hr w) = .ok w' ∧
+      ∀ {a b : World} {ia ib : List Ident}, runIssued w opsa = .ok (a, ia) → runIssued w' opsb = .ok (b, ib) →
+        ia = ib ∧ a.alloc.abs = b.alloc.abs := by
+  obtain ⟨w', h1, h2, h3, _⟩ := C06_roundtrip hi hres hz hr e next
+  refine ⟨w', h1, ?_⟩
+  intro a b ia ib ra rb
+  exact lockstep_run opsa opsb hops hi h2 (eqWorld_abs hi h2 h3) ra rb
+
+/-- The same for any two worlds that compare equal (a world and its clone, for instance). -/
+theorem C06_equal_worlds_lockstep {x y : World} (hx : Inv x) (hy : Inv y)
+    (heq : World.eqWorld x y = .ok true) (opsa opsb : List Op) (hops : opsa.map Op.forget = opsb.map Op.forget)
+    {a b : World} {ia ib : List Ident} (ra : runIssued x opsa = .ok (a, ia)) (rb : runIssued y opsb = .ok (b, ib)) :
+    ia = ib ∧ a.alloc.abs = b.alloc.abs :=
+  lockstep_run opsa opsb hops hx hy (eqWorld_abs hx hy heq) ra rb
+
+/-- Non-vacuity: on `twoTables`, "clear, then insert two entities" issues the identifiers of the
+two freed slots in ascending order, generation 1. -/
+example : opAbs twoTables.alloc.abs (.clear []) = (⟨[(0, false), (0, false)], [0, 1]⟩, []) ∧
+    (opAbs ⟨[(0, false), (0, false)], [0, 1]⟩ (.extend [0] [[⟨0, 5⟩], [⟨0, 6⟩]])).2 = [⟨0, 1⟩, ⟨1, 1⟩] := by
   decide
 
 /-! ### the hypotheses hold along histories -/
@@ -215,3 +245,5 @@ end Brood
 #print axioms Brood.C06_retag_keeps
 #print axioms Brood.C06_roundtrip_history
 #print axioms Brood.C06_clear_order_independent
+#print axioms Brood.C06_lockstep
+#print axioms Brood.C06_equal_worlds_lockstep
